@@ -152,7 +152,7 @@ func runC18(c *Ctx) {
 		fail   string
 	}
 	var rcells []rcell
-	rcells = append(rcells, rcell{scen: "full"})
+	rcells = append(rcells, rcell{scen: "full"}, rcell{scen: "fullctx"})
 	r := gen.New(c.Seed, "c18rt", 0)
 	fails := []string{"addr-in-use", "bad-cert", "unknown-protocol"}
 	for n := 1; n <= 8; n++ {
@@ -169,7 +169,7 @@ func runC18(c *Ctx) {
 		rcells = append(rcells, rcell{scen: "failafter:" + k, n: 2, pos: 1, fail: fails[ki%3]})
 	}
 	for rep := 1; rep < reps; rep++ {
-		rcells = append(rcells, rcell{scen: "full"})
+		rcells = append(rcells, rcell{scen: "full"}, rcell{scen: "fullctx"})
 		for ki, k := range c18ListenerKinds {
 			rcells = append(rcells, rcell{scen: "failafter:" + k, n: 2, pos: 1, fail: fails[(ki+rep)%3]})
 		}
@@ -433,6 +433,14 @@ func c18RouterChild(args []string) int {
 		forcedFirst = strings.TrimPrefix(scen, "failafter:")
 		scen = "fail"
 	}
+	// "fullctx": like "full", but the context the router was started with is cancelled first (the
+	// shutdown path of the command's `case <-r.ctx.Done()` branch), then the router is closed
+	parentCtx, parentCancel := context.WithCancel(context.Background())
+	defer parentCancel()
+	cancelFirst := scen == "fullctx"
+	if cancelFirst {
+		scen = "full"
+	}
 	n, _ := strconv.Atoi(args[1])
 	pos, _ := strconv.Atoi(args[2])
 	failure := args[3]
@@ -577,7 +585,7 @@ again:
 	base := socketCount()
 	rc := make(chan runRes, 1)
 	go func() {
-		fn, err := router.VerifRun(context.Background(), cfg)
+		fn, err := router.VerifRun(parentCtx, cfg)
 		rc <- runRes{fn, err}
 	}()
 	var rr runRes
@@ -632,6 +640,11 @@ again:
 		}
 	}
 	fmt.Printf("COUNT queries_answered_before_close %d\n", answered)
+	if cancelFirst {
+		parentCancel()
+		time.Sleep(100 * time.Millisecond)
+		fmt.Println("COUNT parent_context_cancelled_before_close 1")
+	}
 	done := make(chan struct{})
 	t0 := time.Now()
 	go func() { rr.closeFn(); close(done) }()
